@@ -920,7 +920,7 @@ func probeConstructions(ctx context.Context, r *vkit.Run) {
 
 func runC39(tier, replay string) {
 	r := vkit.Begin("C39", "exploration", tier)
-	r.SetRule("case = one fresh metadata-part storage (part stores fs, sql, zstd>fs, tink>fs in rotation) filled by a vmodel-generated history (puts, copies sharing parts, dedup-identical bodies, appends, multipart uploads, versioned buckets, deletes) plus fixed shapes (empty object, equal-size twins, duplicate body, copy, appended, multipart), then 0-5 corruptions of stored part bytes applied below the storage (fs: the part file; sql: the part_contents rows through the raw store): flip one bit, truncate, extend, remove, swap with an equal-size part of another object; some corruptions aim at decoy parts no current object references. Expected report = exactly the current objects referencing a corrupted part; ValidateAll is run report-only, with deleteCorrupted+force, and once more afterwards. distinct = distinct (part store, object count, corruption kinds+targets, expected count)")
+	r.SetRule("case = one fresh metadata-part storage (part stores fs, sql, zstd>fs, tink>fs in rotation) filled by a vmodel-generated history (puts, copies sharing parts, dedup-identical bodies, appends, multipart uploads, versioned buckets, deletes) plus fixed shapes (empty object, equal-size twins, duplicate body, copy, appended and its copy, multipart objects of checksum type default / COMPOSITE / FULL_OBJECT, copies of those sorting before and after the original in the same and the other bucket = shared parts validated in both orders, two uploads with one dedup-identical part), then 0-5 corruptions of stored part bytes applied below the storage (fs: the part file; sql: the part_contents rows through the raw store): flip one bit, truncate, extend, remove, swap with an equal-size part of another object; some corruptions aim at decoy parts no current object references, in every second case the first one at a part shared by several multipart-ETag objects. Expected report = exactly the current objects referencing a corrupted part; ValidateAll is run report-only, with deleteCorrupted+force, and once more afterwards. distinct = distinct (part store, object count, corruption kinds+targets, expected count)")
 	r.Assume("object->part references are read from the parts table (read-only SQL); for transforming part stores (zstd, tink) an object touched by a corruption but still delivering exactly the written bytes through GetObject may be reported either way (counted), every other touched object must be reported")
 	r.Assume("when ValidateAll cannot find a part store on the plain storage (recorded finding) the validator is driven through a harness struct exposing the storage's default part store as a field, so that the detection logic is still exercised; no storage type of the repository offers such a field")
 	ctx := context.Background()
